@@ -2,13 +2,13 @@
 
 import random
 
-from harness import progs, progs_alias, progs_calls, progs_symstore
+from harness import progs, progs_alias, progs_calls, progs_cheats, progs_symstore
 from harness.common import Check
 from harness.e1corpus import Item, describe, run_items
 
 BUDGET = {
-    "quick": {"arith": 6, "control": 20, "memory": 6, "state": 12, "calls": 12, "alias": 12, "symstorage": 8},
-    "thorough": {"arith": 150, "control": 500, "memory": 100, "state": 400, "calls": 400, "alias": 300, "symstorage": 200},
+    "quick": {"arith": 6, "control": 20, "memory": 6, "state": 12, "calls": 12, "alias": 12, "symstorage": 8, "assume": 8},
+    "thorough": {"arith": 150, "control": 500, "memory": 100, "state": 400, "calls": 400, "alias": 300, "symstorage": 200, "assume": 100},
 }
 TIMEOUTS = ["0", "1ms", "10s"]
 
@@ -19,6 +19,7 @@ def run(chk: Check, tier: str):
     fams["calls"] = progs_calls.fam_calls
     fams["alias"] = progs_alias.fam_alias
     fams["symstorage"] = progs_symstore.fam_symstorage
+    fams["assume"] = progs_cheats.fam_assume  # vm.assume under an `unknown` answer must keep the state
     items = []
     for fam, n in BUDGET[tier].items():
         for i in range(n):
